@@ -902,6 +902,18 @@ def _switches(node, i):
     return None
 
 
+def _new_block(node, i):
+    """children that start a new let-insertion block for the renderer (diagnostic only: names the block in a signature)"""
+    k = node.kind
+    if k == 'If':
+        return i in (1, 2)
+    if k in ('StreamAgg', 'StreamAggScan', 'TableAggregate', 'MatrixAggregate'):
+        return i == 1
+    if k in ('ApplyAggOp', 'ApplyScanOp'):
+        return i < node.extra
+    return irtools.is_new_scope_root(k)
+
+
 def _via(value, env):
     """kind of the innermost agg/scan-context node on the path from `value` to its first unbound Ref ('-' if none)"""
     found = []
@@ -988,7 +1000,18 @@ def scope_check(root: Node, top: Env) -> ScopeReport:
                                                            'AggGroupBy'}):
             rep.lets_in_agg += 1
 
-    def walk(n, env, path, in_ctx, quiet=False):
+    bound_anywhere = set()
+
+    def collect(n):
+        if n.kind == 'Let':
+            bound_anywhere.add(str(n.head[1]))
+        elif n.kind == 'AggLet':
+            bound_anywhere.add(str(n.head[0]))
+        for ch in n.children:
+            collect(ch)
+    collect(root)
+
+    def walk(n, env, path, in_ctx, quiet=False, block='-'):
         k = n.kind
         if k == 'Ref':
             rep.refs += 1
@@ -997,9 +1020,12 @@ def scope_check(root: Node, top: Env) -> ScopeReport:
             if b is None:
                 if quiet:        # inside a let value already reported as unbound
                     return
-                kind = 'cse' if is_cse(name) else 'var'
                 where = 'agg' if in_ctx == 'agg' else 'scan' if in_ctx == 'scan' else 'eval'
-                rep.fail(f'unbound-ref:{kind}:{where}', CL_SCOPE,
+                if is_cse(name):
+                    kind = 'cse:' + ('let-elsewhere' if name in bound_anywhere else 'no-let') + f':block={block}'
+                else:
+                    kind = 'var'
+                rep.fail(f'unbound-ref:{where}:{kind}', CL_SCOPE,
                          f'(Ref {name}) has no binder in its {where} environment (bound names: {sorted(env.e)})')
                 return
             if is_cse(name) and name in lets:
@@ -1043,10 +1069,22 @@ def scope_check(root: Node, top: Env) -> ScopeReport:
                 classify(name, R1, in_ctx, ch, scope)
             if cse_let and i == 1:
                 cpath = path | {cse_let[0]}
-            walk(ch, ce, cpath, cctx, cquiet)
+            walk(ch, ce, cpath, cctx, cquiet, k if _new_block(n, i) else block)
 
     walk(root, top, frozenset(), None)
     return rep
+
+
+_PRIORITY = ['let-value-unbound', 'unbound-ref', 'no-context', 'cse-bound-twice', 'inline-resolves-differently']
+
+
+def _primary(fails):
+    """one defect, one category: keep the failures of the most upstream category only"""
+    for cat in _PRIORITY:
+        sel = [f for f in fails if f[0].startswith(cat)]
+        if sel:
+            return sel
+    return list(fails)
 
 
 def erase(n: Node, sub):
@@ -1081,14 +1119,53 @@ def first_diff(a: Node, b: Node, path=''):
 # the check
 # =================================================================================================================
 
-def check_case(case, guard=None):
+def site_reused(root):
+    """True when some node *object* occurs at one depth both as the root of a let-insertion block (If branch, agg
+    init argument, StreamAgg query, relational child) and in an ordinary position.  The renderer records insertion
+    sites by (id(node), depth), so the two occurrences are confused (known finding 'site-reused')."""
+    from hail.ir.base_ir import BaseIR
+    occ = {}
+
+    def go(n, depth, blk):
+        rec = occ.setdefault(id(n), {}).setdefault(depth, [0, 0])
+        rec[0 if blk else 1] += 1
+        for i, c in enumerate(n.children):
+            if isinstance(c, BaseIR):
+                go(c, depth + 1, bool(n.new_block(i)))
+    go(root, 0, False)
+    return any(r[0] and r[1] for d in occ.values() for r in d.values())
+
+
+def _tag_site_reused(fails):
+    out = []
+    for sig, cl, msg in fails:
+        cat = sig
+        for c in ('cse-raises:AssertionError', 'cse-raises:KeyError', 'let-value-unbound', 'unbound-ref', 'subst-mismatch',
+                  'eval-differs', 'eval-unbound', 'inline-resolves-differently', 'cse-bound-twice', 'no-context'):
+            if sig.startswith(c):
+                cat = c
+                break
+        out.append(('site-reused:' + cat, cl, msg + ' [the DAG re-uses one node object at one depth as a block root and '
+                    'as an ordinary child]'))
+    return out
+
+
+def check_case(case, guard=None, guard2=None):
     """-> (nontrivial, classes, failures)"""
     hl, ir, CSERenderer, PlainRenderer = _env()
     if guard is None:
         guard = _guard()
+    if guard2 is None:
+        guard2 = _guard2()
     classes = ['mode_' + case.get('mode', 'ir')]
     fails = []
     root, st = build(case, guard)
+    reused = site_reused(root)
+    if reused:
+        classes.append('site_reused_shape')
+        if guard2:
+            STATS['excluded_known'] += 1
+            return False, classes + ['excluded_known'], []
     STATS['ops'] += st.get('ops', 0)
     STATS['skipped_ops'] += st.get('skipped', 0)
     STATS['rejected_by_frontend'] += st.get('rejected', 0)
@@ -1113,7 +1190,7 @@ def check_case(case, guard=None):
             except (irtools.OutsideGrammar, irtools.ReadError):
                 pass
         fails.append((sig, CL_RENDER, f'CSERenderer raised {ex!r} in {_frame(ex)}; plain text: {plain[:600]}'))
-        return False, classes + ['renderer_raised'], fails
+        return False, classes + ['renderer_raised'], (_tag_site_reused(fails) if reused else fails)
     try:
         pn = irtools.parse_text(plain)
         cn = irtools.parse_text(cse)
@@ -1127,9 +1204,9 @@ def check_case(case, guard=None):
         raise AssertionError(f'generator produced an ill-scoped DAG: {plain[:800]}')
     classes.append('compared')
     rep = scope_check(cn, top)
-    fails.extend(rep.fails)
+    fails.extend(_primary(rep.fails))
     er = erase(cn, {})
-    if er.key() != pn.key():
+    if er.key() != pn.key() and not fails:      # an unbound / misplaced let is already reported; this would be its echo
         fails.append(('subst-mismatch', CL_SUBST, 'after erasing the inserted lets the CSE tree differs from the plain tree '
                       + str(first_diff(er, pn))))
     # evaluation
@@ -1170,11 +1247,24 @@ def check_case(case, guard=None):
             classes.append(attr)
     nontrivial = bool(rep.lets_lambda or rep.lets_userlet or rep.lets_agglet or rep.lets_scanlet or rep.lets_in_agg)
     if fails:
+        if reused:
+            fails = _tag_site_reused(fails)
         fails = [(s, c, m + f' | CSE: {cse[:700]}') for s, c, m in fails]
     return nontrivial, classes, fails
 
 
 _guard_cache = None
+_guard2_cache = None
+
+
+def _guard2():
+    global _guard2_cache
+    if _guard2_cache is None:
+        import os
+        _guard2_cache = bool(os.environ.get('VERIF_C35_GUARD2')) or any(
+            s.startswith('site-reused:') for s in known_signatures(PROPERTY))
+    return _guard2_cache
+
 STATS = {'ops': 0, 'skipped_ops': 0, 'rejected_by_frontend': 0, 'excluded_known': 0}
 
 
@@ -1222,12 +1312,14 @@ def _strategies():
             st.tuples(st.just('select'), idx, st.integers(1, 7)), st.tuples(st.just('drop'), idx, idx),
             st.tuples(st.just('tget'), idx, idx), st.tuples(st.just('concat'), idx, idx), st.tuples(st.just('tostr'), idx),
         )
-        alts = [core, core, core, core, rare]
+        dup = idx.flatmap(lambda i: st.tuples(st.just('bin'), st.sampled_from(['+', '*', '-']), st.just(i), st.just(i)))
+        alts = [core, core, core, core, rare] + ([dup, dup] if depth > 0 else [dup])
         if depth < 3:
             lam = st.one_of(
                 st.tuples(st.just('map'), idx, body), st.tuples(st.just('map'), idx, body),
                 st.tuples(st.just('filter'), idx, body),
                 st.tuples(st.just('fold'), idx, idx, body), st.tuples(st.just('fold'), idx, idx, body),
+                st.tuples(st.just('fold'), idx, idx, body),
                 st.tuples(st.just('bind'), st.tuples(idx, idx), body), st.tuples(st.just('rbind'), idx, body),
                 st.tuples(st.just('flatmap'), idx, body),
                 st.tuples(st.just('aggregate'), idx, body, st.one_of(st.none(), idx)),
@@ -1247,20 +1339,28 @@ def _strategies():
         })
 
     sc = st.sampled_from([0, 0, 0, 1])
-    ir_op = st.one_of(
+    glue = st.one_of(
         st.tuples(st.just('i'), small), st.tuples(st.just('r'), idx), st.tuples(st.just('r'), idx),
-        st.tuples(st.just('row')), st.tuples(st.just('add'), idx, idx), st.tuples(st.just('add'), idx, idx),
-        st.tuples(st.just('mul'), idx, idx), st.tuples(st.just('cmp'), idx, idx), st.tuples(st.just('if'), idx, idx, idx),
+        st.tuples(st.just('row')), st.tuples(st.just('add'), idx, idx), st.tuples(st.just('mul'), idx, idx),
+        idx.flatmap(lambda i: st.tuples(st.sampled_from(['add', 'mul']), st.just(i), st.just(i))),
+        idx.flatmap(lambda i: st.tuples(st.sampled_from(['add', 'mul']), st.just(i), st.just(i))),
+        st.tuples(st.just('cmp'), idx, idx), st.tuples(st.just('if'), idx, idx, idx),
         st.tuples(st.just('arr'), idx, idx), st.tuples(st.just('len'), idx),
-        st.tuples(st.just('smap'), idx, idx, idx), st.tuples(st.just('sfilter'), idx, idx, idx),
-        st.tuples(st.just('sfold'), idx, idx, idx, idx, idx), st.tuples(st.just('let'), idx, idx, idx),
         st.tuples(st.just('tup'), st.lists(idx, min_size=2, max_size=3)),
+    )
+    binders = st.one_of(
+        st.tuples(st.just('smap'), idx, idx, idx), st.tuples(st.just('sfilter'), idx, idx, idx),
+        st.tuples(st.just('sfold'), idx, idx, idx, idx, idx), st.tuples(st.just('sfold'), idx, idx, idx, idx, idx),
+        st.tuples(st.just('let'), idx, idx, idx),
+        st.tuples(st.just('sagg'), idx, idx, idx), st.tuples(st.just('saggscan'), idx, idx, idx),
+    )
+    aggs = st.one_of(
         st.tuples(st.just('asum'), idx, sc), st.tuples(st.just('asum'), idx, sc), st.tuples(st.just('acount'), sc),
         st.tuples(st.just('acollect'), idx, sc), st.tuples(st.just('atake'), idx, idx, sc),
         st.tuples(st.just('afilter'), idx, idx, sc), st.tuples(st.just('aexplode'), idx, idx, idx, sc),
         st.tuples(st.just('agroup'), idx, idx, sc), st.tuples(st.just('alet'), idx, idx, idx, sc),
-        st.tuples(st.just('sagg'), idx, idx, idx), st.tuples(st.just('saggscan'), idx, idx, idx),
     )
+    ir_op = st.one_of(glue, glue, glue, binders, binders, aggs, aggs)
 
     def ir_case(max_ops):
         return st.fixed_dictionaries({
@@ -1293,6 +1393,18 @@ SEED_CASES = [
     {'mode': 'ir', 'roots': [0], 'target': 'value',
      'ops': [['r', 1], ['asum', 0, 0], ['r', 0], ['add', 1, 0], ['arr', 4, 4], ['sagg', 0, 1, 0],
              ['add', 0, 0], ['smap', 0, 0, 0]]},
+    # a node that is a let-insertion site in one If branch and occurs again at the same depth elsewhere (public API)
+    {'mode': 'api', 'free': [], 'envs': _E3, 'roots': [0], 'all_roots': True,
+     'ops': [['bin', '+', 0, 0], ['bin', '+', 0, 0], ['ormiss', 0, 0], ['if', 0, 0, 2]]},
+    {'mode': 'api', 'free': [], 'envs': _E3, 'roots': [0],
+     'ops': [['not', 0], ['and', 0, 0], ['ormiss', 0, 0], ['and', 0, 1]]},
+    {'mode': 'api', 'free': [], 'envs': _E3, 'roots': [0], 'all_roots': True,
+     'ops': [['bin', '+', 0, 0], ['not', 0], ['bin', '+', 0, 0], ['ormiss', 0, 0], ['bin', '+', 0, 0], ['if', 0, 4, 0]]},
+    # fold accumulator: a sub-expression of the accumulator alone used twice inside the fold body
+    {'mode': 'ir', 'roots': [0], 'target': 'value',
+     'ops': [['arr', 0, 0], ['r', 0], ['add', 0, 0], ['mul', 0, 0], ['sfold', 0, 3, 0, 0, 0]]},
+    {'mode': 'api', 'free': ['ai32', 'i32'], 'envs': _E3, 'roots': [0],
+     'ops': [['fold', 0, 0, {'ops': [['bin', '*', 1, 1], ['bin', '+', 0, 0], ['bin', '+', 0, 2]], 'ret': 0}]]},
     # plain sharing shapes (regression seeds): inside/outside lambda, nested lambdas, fold accumulator, agg/eval sharing
     {'mode': 'api', 'free': ['ai32', 'i32'], 'envs': _E3, 'roots': [0, 1], 'all_roots': True,
      'ops': [['bin', '+', 0, 0], ['map', 0, {'ops': [['bin', '*', 0, 1], ['bin', '+', 0, 0],
@@ -1306,7 +1418,7 @@ SEED_CASES = [
 
 
 def plan(tier):
-    per = 170 if tier == 'quick' else 3600
+    per = 240 if tier == 'quick' else 3600
     specs = [dict(kind='seeds')]
     for i in range(15):
         if i % 15 < 9:
@@ -1321,7 +1433,7 @@ def run_shard(spec, seed, tier):
     _env()
     if spec['kind'] == 'seeds':      # fixed programs, always interpreted without the known-finding guard
         for case in SEED_CASES:
-            nt, classes, fails = check_case(case, guard=False)
+            nt, classes, fails = check_case(case, guard=False, guard2=False)
             res.case(case, nt, classes + ['seed_case'])
             for sig, cl, msg in fails:
                 res.fail(sig, cl, msg, case)
@@ -1338,5 +1450,5 @@ def run_shard(spec, seed, tier):
 
 def replay(case):
     _env()
-    _, _, fails = check_case(case)
+    _, _, fails = check_case(case, guard=False, guard2=False)      # a replay never applies the known-finding guards
     return [dict(signature=s, clause=c, message=m, case=case) for s, c, m in fails]
